@@ -216,6 +216,10 @@ package ice
 //@   site call Equal#1 assert compares-the-recorded-source-with-the-candidate-the-response-arrived-on: recv == pendingRequest.source && arg0 == local
 //@   site call Equal#1 ghost sameLocal := result
 //@   ensures a-response-counts-only-on-the-local-candidate-its-request-was-sent-from: result && pendingRequest.source != nil ==> sameLocal
+//@   ghostvar sameRemote bool = false
+//@   site call addrPortEqual#1 assert compares-the-destination-of-the-request-with-the-source-of-the-response: arg0 == pendingRequest.destination && arg1 == remoteAddr
+//@   site call addrPortEqual#1 ghost sameRemote := result
+//@   ensures a-response-counts-only-from-the-address-its-request-was-sent-to-whatever-the-transport: result ==> sameRemote
 
 //@ func (*Agent).sendBindingRequest
 //@   props C03 C02
